@@ -199,7 +199,35 @@ def step2 (st : Option PartSet.PartSet × Option PartsState) (toks : List String
     | none => (st, "bad-op")
   | _ => let (ps', out) := step st.1 toks; ((ps', st.2), out)
 
-def machine : Machine := { σ := Option PartSet.PartSet × Option PartsState, init := (none, none), step := step2 }
+/-- the block store ops (`ssave`/`sload`) next to the rest -/
+def step3 (st : (Option PartSet.PartSet × Option PartsState) × BStore) (toks : List String) :
+    ((Option PartSet.PartSet × Option PartsState) × BStore) × String :=
+  match toks with
+  | "ssave" :: rest =>
+    match (kv rest "h").bind String.toInt?, (kv rest "data").bind ofHex, (kv rest "psize").bind String.toNat? with
+    | some h, some d, some k =>
+      if k = 0 then (st, "bad-op") else
+      let ps := fromData Hs d k
+      ((st.1, bsSave st.2 h ps), s!"saved {ps.total} {toHex ps.hash}")
+    | _, _, _ => (st, "bad-op")
+  | "sload" :: rest =>
+    match (kv rest "h").bind String.toInt? with
+    | some h =>
+      match bsParts st.2 h with
+      | none => (st, "nil")
+      | some ps =>
+        let b := match bsLoadBlock st.2 h with
+          | some bz => toHex (Hs bz)
+          | none => "nil"
+        (st, s!"block={b} hdr={ps.total}/{toHex ps.hash} parts=" ++
+          ";".intercalate ((List.range ps.total).map fun i => match bsLoadPart st.2 h i with
+            | some q => s!"{q.index}:" ++ hexOrDash q.bytes ++ "/" ++ showProof q.proof
+            | none => "?"))
+    | none => (st, "bad-op")
+  | _ => let (s', out) := step2 st.1 toks; ((s', st.2), out)
+
+def machine : Machine :=
+  { σ := (Option PartSet.PartSet × Option PartsState) × BStore, init := ((none, none), { blocks := [] }), step := step3 }
 
 end Tmv.Drv.C10
 
